@@ -38,25 +38,38 @@ def simpleB (poly : List (Pt2 Float)) : Bool := Id.run do
       else if arr[i]! == arr[j]! then return false
   return true
 
-/-- smallest relative distance of a vertex from the open chord between two other vertices:
-0 means some vertex lies exactly on a chord (the polygon touches a potential diagonal) -/
+/-- smallest relative distance of a vertex from the open chord between two other vertices, not
+counting chords that run along the polygon's own boundary (a straight run of edges with
+straight-angle vertices): 0 means some vertex touches a potential *diagonal* -/
 def degeneracyMargin (poly : List (Pt2 Float)) : Float := Id.run do
   let arr := poly.toArray
   let n := arr.size
   let mut best : Float := F!(1.0)
+  let dist (a b c : Pt2 Float) : Float × Float :=      -- (parameter along ab, relative distance)
+    let dx := b.x - a.x; let dy := b.y - a.y
+    let l2 := dx * dx + dy * dy
+    (((c.x - a.x) * dx + (c.y - a.y) * dy) / l2, (dx * (c.y - a.y) - dy * (c.x - a.x)).abs / l2)
   for i in [0:n] do
     for j in [i+1:n] do
       let a := arr[i]!; let b := arr[j]!
-      let dx := b.x - a.x; let dy := b.y - a.y
-      let l2 := dx * dx + dy * dy
-      if l2 > F!(0.0) then
+      if (b.x - a.x) * (b.x - a.x) + (b.y - a.y) * (b.y - a.y) > F!(0.0) then
+        -- is the chord a straight run of the boundary (forwards i→j or backwards j→i)?
+        let mut fwd := true
+        for k in [i+1:j] do
+          let (t, d) := dist a b arr[k]!
+          if !(d < F!(1e-9) && F!(0.0) < t && t < F!(1.0)) then fwd := false
+        let mut bwd := true
         for k in [0:n] do
-          if k != i && k != j then
-            let c := arr[k]!
-            let t := ((c.x - a.x) * dx + (c.y - a.y) * dy) / l2
-            if F!(0.0) < t && t < F!(1.0) then
-              let d := (dx * (c.y - a.y) - dy * (c.x - a.x)).abs / l2
-              if d < best then best := d
+          if k < i || k > j then
+            let (t, d) := dist a b arr[k]!
+            if !(d < F!(1e-9) && F!(0.0) < t && t < F!(1.0)) then bwd := false
+        if !(fwd || bwd) || (j == i + 1) || (i == 0 && j == n - 1) then
+          if !(j == i + 1) && !(i == 0 && j == n - 1) then
+            for k in [0:n] do
+              if k != i && k != j then
+                let (t, d) := dist a b arr[k]!
+                if F!(0.0) < t && t < F!(1.0) then
+                  if d < best then best := d
   return best
 
 /-- failures on inputs with a vertex within rounding distance of a chord are labelled as such
